@@ -40,6 +40,14 @@ Fixpoint runs (zf lg : bool) (obs : list observer) (st : dstate) (segments : lis
                  let '(e', c') := runs zf lg obs c rest in (e ++ e', c')
   end.
 
+(* the same with the observers' intervals re-tuned by the user between two run calls (observer.interval is a public attribute) *)
+Fixpoint runs_var (zf lg : bool) (st : dstate) (segments : list (list observer * Z)) : list event * dstate :=
+  match segments with
+  | [] => ([], st)
+  | (obs, a) :: rest => let '(e, c) := irun zf lg obs st a in
+                        let '(e', c') := runs_var zf lg c rest in (e ++ e', c')
+  end.
+
 Definition fresh : dstate := (0, false).
 
 Fixpoint zseq (c : Z) (n : nat) : list Z := match n with O => [] | S n => c :: zseq (c + 1) n end.
